@@ -10,11 +10,11 @@ cd $L/verif
 for id in "$@"; do
   p=${id:0:3}
   git -C $L/repo checkout -q -- .
-  git -C $L/repo apply /verif/seeded/$id/patch.diff || { echo "$id: patch does not apply" >> $OUT; continue; }
+  git -C $L/repo apply /verif/${KIND:-seeded}/$id/patch.diff || { echo "$id: patch does not apply" >> $OUT; continue; }
   res=$(./check $p --tier $TIER 2>&1); rc=$?
   v=$(echo "$res" | grep '^VIOLATION' | head -1)
   what=$(echo "$res" | grep -m1 -A1 '^VIOLATION' | tail -1 | cut -c1-260)
   [ $rc -eq 2 ] && what=$(echo "$res" | tail -3 | tr '\n' ' ' | cut -c1-260)
-  echo "$(date +%F) seeded $id check=$p tier=$TIER exit=$rc :: $v :: $what" >> $OUT
+  echo "$(date +%F) ${KIND:-seeded} $id check=$p tier=$TIER exit=$rc :: $v :: $what" >> $OUT
   git -C $L/repo checkout -q -- .
 done
